@@ -143,12 +143,25 @@ def run_shard(spec, acc):
         clock = stack.enter_context(decoder_clock_box()) if jump else None
         if jump:
             acc.count("histories_with_clock_past_discovery_window")
+        # without a moving clock the unfiltered decoder sees the whole history first (a filtered decoder living in the
+        # same process must not be able to influence it), and it is held against the history's ground truth: every
+        # single frame and every completed fast-packet message that was sent is returned
+        pre = None
+        if not jump:
+            pre = [hist.safe_feed(plain, ev) for ev in events]
+            if not extra:
+                for pos, (ev, (ku, u)) in enumerate(zip(events, pre)):
+                    if ku == "ok" and u is None and (ev.tag in ("single", "claim") or ev.last):
+                        acc.violation("unfiltered-decoder-silent-on-a-sent-message", f"an unfiltered decoder without any other setting returned nothing for a complete {ev.definition} "
+                                      f"message at position {pos} (other decoders with filters {snapshot} live in the same process)", {"config": repr(snapshot), "position": pos})
+                        break
+                acc.count("reference_outputs_checked_against_ground_truth")
         for pos, ev in enumerate(events):
             if jump:
                 # the decoder's clock moves on between frames (0 to 3 minutes at a time): the discovery window ends
                 # somewhere inside the history
                 clock["offset"] += rng.choice([0.0, 0.5, 20.0, 60.0, 180.0])
-            ku, u = hist.safe_feed(plain, ev)
+            ku, u = hist.safe_feed(plain, ev) if pre is None else pre[pos]
             kf, f = hist.safe_feed(filt, ev)
             kf2, f2 = hist.safe_feed(filt2, ev)
             if (kf2, project.msg_proj(f2) if kf2 == "ok" else f2) != (kf, project.msg_proj(f) if kf == "ok" else f):
